@@ -552,7 +552,7 @@ class Run(ExtraOps):
             self.violate("engine_mismatch", {"model": ent.mv.engine, "relation": ent.rel.engine.name}, entry=ent)
         for hook in p.new_entry_hooks:
             hook(self, ent, op, parents)
-        if p.eval_new:
+        if p.eval_new and self.cfg.get("eval_new", True):
             self.eval_and_check(ent, op)
 
     # ----------------------------------------------------------------- leaves
